@@ -86,8 +86,17 @@ type SimConfig struct {
 	BeforeDecode func(c *Context, b *Batch) error
 	// AfterDecode runs after a batch was stored and evaluated (oracle hook).
 	AfterDecode func(c *Context, rows []DecodeRow)
-	// OnOp is told about every cache operation (name, arguments, result) for stories and probes.
-	OnOp func(c *Context, op string, args [4]int, ok bool)
+	// OnOp is told about every cache operation for stories, probes and signatures.
+	OnOp func(c *Context, op OpInfo)
+}
+
+// OpInfo describes one cache operation.
+type OpInfo struct {
+	Name   string // seq_rm, seq_cp, seq_add, clear, defrag
+	Args   [4]int
+	OK     bool
+	Cells  int   // cells the operation touched
+	Others []int // further sequence ids carried by cells whose position the operation changed (seq_add)
 }
 
 var simModels = map[string]*SimConfig{}
@@ -174,6 +183,10 @@ type kvCache struct {
 	// recurrent mode
 	states []*recState // per sequence id; states may be shared after seq_cp
 
+	lastCells  int
+	lastOthers []int
+	Version    int
+
 	// statistics for probes
 	Defrags    int
 	DefragMove int
@@ -253,6 +266,7 @@ func (kv *kvCache) seqRm(seq, p0, p1 int) bool {
 			} else {
 				continue
 			}
+			kv.lastCells++
 			if c.empty() {
 				if c.Pos >= 0 {
 					kv.used--
@@ -300,6 +314,7 @@ func (kv *kvCache) seqCp(src, dst, p0, p1 int) {
 		c := &kv.cells[i]
 		if c.has(src) && c.Pos >= p0 && c.Pos < p1 {
 			c.insert(dst)
+			kv.lastCells++
 		}
 	}
 }
@@ -331,6 +346,18 @@ func (kv *kvCache) seqAdd(seq, p0, p1, delta int) {
 		c := &kv.cells[i]
 		if c.has(seq) && c.Pos >= p0 && c.Pos < p1 {
 			kv.hasShift = true
+			kv.lastCells++
+			for _, o := range c.Seqs {
+				if o != seq {
+					known := false
+					for _, k := range kv.lastOthers {
+						known = known || k == o
+					}
+					if !known {
+						kv.lastOthers = append(kv.lastOthers, o)
+					}
+				}
+			}
 			c.Pos += delta
 			c.Delta += delta
 			if c.Pos < 0 {
@@ -604,10 +631,15 @@ func (c *Context) KvSeq(seq int) []VisEnt {
 }
 
 func (c *Context) op(name string, a, b, cc, d int, ok bool) {
+	c.kv.Version++
 	if f := c.model.sim.OnOp; f != nil {
-		f(c, name, [4]int{a, b, cc, d}, ok)
+		f(c, OpInfo{Name: name, Args: [4]int{a, b, cc, d}, OK: ok, Cells: c.kv.lastCells, Others: c.kv.lastOthers})
 	}
+	c.kv.lastCells, c.kv.lastOthers = 0, nil
 }
+
+// KvVersion changes whenever the cache content may have changed.
+func (c *Context) KvVersion() int { return c.kv.Version }
 
 func (c *Context) Decode(batch *Batch) error {
 	cfg := c.model.sim
@@ -631,6 +663,7 @@ func (c *Context) Decode(batch *Batch) error {
 		abort("GGML_ASSERT(n_tokens_all <= cparams.n_batch) failed: %d > %d", n, c.nBatch)
 	}
 	kv := c.kv
+	kv.Version++
 	kv.update()
 	c.out = c.out[:0]
 	for range batch.rows {
